@@ -211,17 +211,26 @@ def run_history(arg):
                 m = pr.mutate(kind, mod, rng)
                 if not m:
                     continue
-                events.append({'ev': 'Mutate', 'kind': m['kind']})
+                events.append({'ev': 'Mutate', 'kind': m['kind'], 'mods': mods_of(m)})
                 steps.append(m)
             elif step > 0:
                 m = None
                 for _ in range(10):
-                    m = pr.mutate(rng.choice(KINDS), rng.choice(['mod_a', 'mod_b']), rng)
+                    kind, mod = rng.choice(KINDS + ['open_buffer']), rng.choice(['mod_a', 'mod_b'])
+                    if kind == 'open_buffer':
+                        if not pr.exists('pkgx/%s.py' % mod):
+                            continue
+                        pr.ver += 1            # an editor buffer of the module with unsaved changes is analysed by A
+                        A.ask({'src': content(pr.ver), 'path': os.path.join(pr.pkg, mod + '.py'), 'project': pr.root,
+                               'queries': [['get_names', 0, 0]], 'cache_dir': shared})
+                        m = {'kind': kind, 'mod': mod, 'ver': pr.ver}
+                        break
+                    m = pr.mutate(kind, mod, rng)
                     if m:
                         break
                 if not m:
                     continue
-                events.append({'ev': 'Mutate', 'kind': m['kind']})
+                events.append({'ev': 'Mutate', 'kind': m['kind'], 'mods': mods_of(m)})
                 steps.append(m)
             time.sleep(0.025)
             req = {'src': BUF, 'path': path, 'project': pr.root, 'queries': QUERIES, 'cache_dir': shared}
@@ -289,8 +298,15 @@ def model_scripts(stdout):
     return out
 
 
+def mods_of(m):
+    if m['kind'] == 'rename':
+        return ['mod_a', 'mod_b']
+    return [m['mod']]
+
+
 def fullev(e):
-    return {'ev': e['ev'], 'kind': e.get('kind', ''), 'proc': e.get('proc', ''), 'same': e.get('same', True), 'n': e.get('n', 0),
+    return {'ev': e['ev'], 'kind': e.get('kind', ''), 'mods': e.get('mods', []), 'proc': e.get('proc', ''),
+            'same': e.get('same', True), 'n': e.get('n', 0),
             'had': e.get('had', False), 'freshenough': e.get('freshenough', False), 'hit': e.get('hit', False)}
 
 
@@ -348,6 +364,7 @@ CONSTANTS
   MaxClock = %d
   Assume = %s
   ProjectKeepsScriptPaths = %s
+  BufferShadowsDisk = %s
 INVARIANT Seen
 CHECK_DEADLOCK FALSE
 '''
@@ -356,10 +373,10 @@ CHECK_DEADLOCK FALSE
 def run(ctx):
     quick = ctx.quick
 
-    def cfg(name, ver, clock, assume, keeps='FALSE'):
+    def cfg(name, ver, clock, assume, keeps='FALSE', shadows='FALSE'):
         p = os.path.join(ctx.tmp, name)
         with open(p, 'w') as f:
-            f.write(CFG % (ver, clock, assume, keeps))
+            f.write(CFG % (ver, clock, assume, keeps, shadows))
         return p
     res = run_tlc('FileCache', cfg('assume.cfg', 2 if quick else 3, 3, 'TRUE'), workers=16, timeout=3000)
     ctx.add_tlc(res, 'Seen under MtimeMonotone')
@@ -374,6 +391,12 @@ def run(ctx):
     if res.violated != 'Seen':
         raise MachineryError('without MtimeMonotone the model should admit stale answers')
     ctx.coverage['assumption_free_counterexample'] = [s['action'] for s in res.trace]
+    res = run_tlc('FileCache', cfg('shadow.cfg', 2, 3, 'TRUE', shadows='TRUE'), workers=8, timeout=900)
+    ctx.add_tlc(res, 'design as coded: an unsaved buffer is filed under the path of its file (BufferShadowsDisk=TRUE): Seen')
+    if res.violated == 'Seen':
+        ctx.violation('design:Seen:unsaved-buffer-shadows-disk', 'FileCache.tla with the code\'s handling of unsaved buffers '
+                      'violates Seen: OpenBuffer(p, m) then Resolve(p, m) answers the buffer text',
+                      {'history': [s_['action'] for s_ in res.trace]})
     res = run_tlc('FileCache', cfg('keeps.cfg', 2, 3, 'TRUE', keeps='TRUE'), workers=8, timeout=900)
     ctx.add_tlc(res, 'what-if: the Project object keeps the search paths of earlier Scripts (must fail)')
     if res.violated != 'Seen':
@@ -417,8 +440,13 @@ def run(ctx):
     ctx.coverage['parso_decisions'] = sum(1 for t in traces for e in t if e['ev'] == 'Decision')
     vs = validate_traces('Trace_FileCache', 'Trace_FileCache.cfg', traces, ctx, 'Trace_FileCache')
     for v, r in zip(vs, results):
-        if v['notes']:
-            ctx.drift({'parso_rule_differs': len(v['notes'])})
+        pr = [n for n in v['notes'] if 'ParsoRule' in str(n)]
+        sh = [n for n in v['notes'] if 'BufferShadowsDisk' in str(n)]
+        if pr:
+            ctx.drift({'parso_rule_differs': len(pr)})
+        if sh:
+            ctx.violation('not-seen:unsaved-buffer-shadows-disk', 'after a Script for the UNSAVED buffer of a module, a later Script '
+                          'that imports the module answers from the buffer, not from the file on disk', {'steps': r['steps'][-6:]})
         if not v['accepted']:
             muts = [s for s in r['steps'] if 'kind' in s]
             last = muts[-1]['kind'] if muts else 'initial'
